@@ -43,6 +43,10 @@ RULE = ("case 'bad' = (well-formed DBC or SYM text: canmatrix's own output for a
         "new name that fail to parse (a word, a decimal fraction, an entry without text), malformed copies of the file's own enum statements "
         "(a key replaced, an entry cut behind its key) in front of or behind the statement of that name. SYM Var=/Mux= statements are also cut inside a quoted text (unit with a blank, long "
         "name, quoted name) wherever that text stands, also behind the length field: one load error, nothing written. "
+        "Wrong field type in a SYM text is also a number of another type: a decimal fraction or a number with an exponent (12.5, 8.0, 1e1) where the "
+        "format has an integer - DLC=, CycleTime=, ID= (templates and copies of the file's own head statements, in front of the original, behind "
+        "it in the block, or behind the empty line that ends the block, where the frame is still the reader's current one), start bit, length and "
+        "selector value of Var=/Mux= copies: one load error each, size / cycle time / identifier stay what the well-formed statement says. "
         "Non-trivial = every distinct case.")
 EXHAUSTIVE = {"quick": False, "thorough": False}
 PARTIAL = ["theorems: a bad line is a no-op of the abstract reader (Props/C20) and of the model of the whole reader where it is skipped, "
@@ -103,7 +107,18 @@ WRONG_DBC = ["BO_ abc F: 8 E1", "BO_ 16 F: x E1", "BO_TX_BU_ abc : E1;", "SIG_VA
 RAISES = {"BO_ abc F: 8 E1", "BO_ 16 F: x E1", "SIG_VALTYPE_ abc s : 1;", "SIG_GROUP_ abc g 1 : s;", "SG_MUL_VAL_ {fid} {sig} {sig} x-y;"}
 MATCHOK = {"SG_MUL_VAL_ {fid} nosuchsignal {sig} 1-1;"}
 UNKNOWN_SYM = ["FOO=bar", "XYZ", "Len=8", "Color=red", "Type=Extnded", "Type=", "Type=29", "{FOO}", "{SIGNALS}"]
-BAD_SYM = ["Type", "Var=x unsigned", "Var=x unsigned a,b", "Var=x nosuchtype 0,8", "DLC=abc", "Var=", "Mux=m 0,x 1", "CycleTime=abc", "ID=zzzh"]
+BAD_SYM = ["Type", "Var=x unsigned", "Var=x unsigned a,b", "Var=x nosuchtype 0,8", "DLC=abc", "Var=", "Mux=m 0,x 1", "CycleTime=abc", "ID=zzzh",
+           # wrong field type = a number of another type: a decimal fraction / a number with an exponent where the format has an integer
+           "DLC=2.5", "CycleTime=12.5", "DLC=8.0", "CycleTime=1e1", "ID=12.5h", "Var=x unsigned 0.5,8", "Var=x unsigned 0,8.0", "Mux=m 0,8 1.5"]
+# numbers that are no integers (what float() converts and int() refuses): the wrong field type for the start bit, the length, the selector
+# value, the DLC, the cycle time and the identifier of a SYM text.  In a hexadecimal field only those with a '.' (1e1 is a hexadecimal number)
+NONINT = ("12.5", "2.5", "8.0", "100.0", "0.5", "-1.5", "5.", ".5", "1e1", "1E2", "1e-1", "7.25e1")
+NONINT_HEX = tuple(x for x in NONINT if "." in x and "e" not in x.lower())
+# words in a hexadecimal field that ends with h: no hexadecimal digits ('abc' would be a number)
+WORDS_HEX = ("x", "one", "n/a", "0x", "1O")
+# the statements of the head of a message block with a malformed number: inserted between two blocks too
+HEAD_BAD_SYM = ["DLC=abc", "CycleTime=abc", "DLC=", "CycleTime=", "ID=zzzh", "ID=12"] + ["DLC=" + x for x in NONINT] + ["CycleTime=" + x for x in NONINT] + \
+               ["ID=" + x + "h" for x in NONINT_HEX]
 # between the statements of the {ENUMS} section: lines that are no enum statement (skipped without a load error) and enum statements with
 # a name of their own that fail to parse (a word or a decimal fraction where the number of an entry has to stand, an entry without text)
 UNKNOWN_ENUM_SYM = ["FOO=bar", "XYZ", "Len=8", "Enum Zq_u(0=\"a\")", "{FOO}", "value Zq_u(0=\"a\")", "Var=x unsigned 0,8"]
@@ -425,7 +440,9 @@ def twins_sym(rng, lines):
             # a Mux= line used to make load raise at the end of the frame)
             fields = [1, 2] + ([3] if st.startswith("Mux=") and g.group(3) is not None else [])
             which = rng.choice(fields)
-            bad = st[:g.start(which)] + rng.choice(WORDS[:3]) + st[g.end(which):]
+            # a word, or (every second time) a number that is no integer
+            junk = rng.choice(WORDS[:3]) if rng.random() < 0.5 else rng.choice(NONINT_HEX if which == 3 else NONINT)
+            bad = st[:g.start(which)] + junk + ("h" if which == 3 and g.group(3).endswith("h") and junk in NONINT_HEX and rng.random() < 0.5 else "") + st[g.end(which):]
             if st.startswith("Mux=") and rng.random() < 0.3:
                 # junk in the value of a switch of a Mux= line (the value is converted when the multiplexer signal is made)
                 bad = st.rstrip() + " /%s:%s" % (rng.choice(["f", "o", "min", "max"]), rng.choice(WORDS[:3]))
@@ -439,6 +456,72 @@ def twins_sym(rng, lines):
                 found.append([p if rng.random() < 0.5 else rng.choice(earlier), bad, "bad", "front"])
             else:
                 found.append([rng.choice(later) if later and rng.random() < 0.5 else p + 1 if p + 1 in blocks else p, bad, "bad"])
+    found.extend(head_twins_sym(rng, lines, blocks))
+    return found
+
+
+def behind_block_sym(lines, p):
+    """the position behind the empty line that ends the message block of line p (the frame of the block is still the current one of the
+    reader there), None when the text ends first"""
+    q = p
+    while q < len(lines) and lines[q].strip() != "":
+        q += 1
+    return q + 1 if q < len(lines) else None
+
+
+def between_blocks_sym(lines):
+    """the positions between two message blocks: behind the empty line that ends a block (and in front of whatever follows: the next
+    block, a section line, another empty line, the end of the text)"""
+    out = []
+    for p, l in enumerate(lines):
+        if l.startswith("ID="):
+            q = behind_block_sym(lines, p)
+            if q is not None and q not in out:
+                out.append(q)
+    return out
+
+
+def head_twins_sym(rng, lines, blocks):
+    """'wrong field type' statements derived from the head of a message block of the SYM text: the copy of its DLC= / CycleTime= / ID=
+    line in which the number was replaced by a word or by a number that is no integer (a decimal fraction, an exponent), each
+    [position, line, 'bad'] (one load error; size, cycle time and identifier of the frame stay what the well-formed line says).  The copy
+    stands in front of the original (directly or earlier in the block), behind it in the block, or behind the empty line that ends the
+    block (the frame is still the reader's current one there)."""
+    found = []
+    heads = [(p, l) for p, l in enumerate(lines)
+             if re.match(r"(DLC|CycleTime)= *\d+\s*(//.*)?\Z", l) or re.match(r"ID=[0-9A-Fa-f]+h\s*(//.*)?\Z", l)]
+    # (only lines of a block: behind a [name] line without an empty line in between)
+    def in_block(p):
+        q = p
+        while q >= 0 and lines[q].strip() != "":
+            if lines[q].startswith("["):
+                return True
+            q -= 1
+        return False
+    heads = [(p, l) for p, l in heads if in_block(p)]
+    if not heads or rng.random() >= 0.7:
+        return found
+    for _k in range(rng.randint(1, 2)):
+        kw = rng.choice(sorted({l.split("=")[0] for _, l in heads}))          # every kind of head statement equally often
+        p, st = rng.choice([x for x in heads if x[1].split("=")[0] == kw])
+        g = re.match(r"\w+= *([0-9A-Fa-f]+)", st)
+        if kw == "ID":
+            junk = rng.choice(WORDS_HEX) if rng.random() < 0.4 else rng.choice(NONINT_HEX)
+        else:
+            junk = rng.choice(WORDS) if rng.random() < 0.3 else rng.choice(NONINT)
+        bad = st[:g.start(1)] + junk + st[g.end(1):]
+        if any(bad.strip() == x[1].strip() for x in found):
+            continue
+        later = [q for q in blocks if q > p and not any(lines[r].strip() == "" for r in range(p, q))]
+        earlier = [q for q in blocks if q < p and not any(lines[r].strip() == "" or lines[r].startswith("[") for r in range(q, p))]
+        behind = behind_block_sym(lines, p)
+        r = rng.random()
+        if r < 0.3:
+            found.append([p if not earlier or rng.random() < 0.5 else rng.choice(earlier), bad, "bad", "front"])
+        elif r < 0.65 or behind is None:
+            found.append([p + 1 if not later or rng.random() < 0.5 else rng.choice(later), bad, "bad"])
+        else:
+            found.append([behind, bad, "bad"])
     return found
 
 
@@ -755,6 +838,15 @@ def _gen_base(rng, tier, shard, nshards):
                             b, kind = malformed_enum_sym(rng, rng.choice(enums)[2]), "bad"
                         if b:
                             bads.append([rng.choice(places), b, kind, "enums"])
+            if fmt == "sym" and rng.random() < 0.35:
+                # statements of the head of a block (DLC=, CycleTime=, ID=) whose number is a word, missing, or a number that is no integer:
+                # in a block or between two blocks (behind the empty line that ends a block: the frame is still the current one)
+                between = between_blocks_sym(lines)
+                for _k in range(rng.randint(1, 2)):
+                    b = rng.choice(HEAD_BAD_SYM)
+                    if any(b2.strip() == b for _, b2, *_r in bads):
+                        continue
+                    bads.append([rng.choice(between) if between and rng.random() < 0.6 else rng.choice(pos), b, "bad", "head"])
             nowhole = False
             if rng.random() < 0.5:
                 # wrong field types derived from the file's own statements: the copy of a complete statement with one number replaced
@@ -771,7 +863,7 @@ def _gen_base(rng, tier, shard, nshards):
                 bads.extend(twins)
             if bads:
                 case = {"op": "bad", "c": {"fmt": fmt, "text": text, "ins": [x[:3] for x in bads], "bad": [x[1] for x in bads]}}
-                for mark in ("twin", "twin-front", "enums"):
+                for mark in ("twin", "twin-front", "enums", "head"):
                     if any(x[3:] == [mark] for x in bads):
                         case["c"][mark + "s" if mark == "twin" else mark] = [n for n, x in enumerate(bads) if x[3:] == [mark]]
                 if nowhole:
@@ -1006,6 +1098,19 @@ def features(case, impl):
         for n in case["c"].get("twin-front", []):
             b = case["c"]["ins"][n][1]
             yield "malformed-copy-in-front-of-the-original/%s/%s" % (case["c"]["fmt"], (b.split("=")[0] if case["c"]["fmt"] == "sym" and not b.startswith("enum") else b.split(" ")[0]))
+        for n in case["c"].get("head", []):
+            yield "sym-head-statement-malformed-number/" + case["c"]["ins"][n][1].split("=")[0]
+        if case["c"]["fmt"] == "sym":
+            between = set(between_blocks_sym(case["c"]["text"].split("\n")))
+            for p, b, kind in case["c"]["ins"]:
+                if b.startswith(("DLC=", "CycleTime=", "ID=")) and kind == "bad":
+                    v = b.split("=", 1)[1].split("//")[0].strip().rstrip("h")
+                    try:
+                        float(v)
+                        isnum = True
+                    except ValueError:
+                        isnum = False
+                    yield "sym-head-number/%s/%s/%s" % (b.split("=")[0], "non-integer-number" if isnum and not v.isdigit() else "other", "between-blocks" if p in between else "in-block")
         for n in case["c"].get("enums", []):
             b, kind = case["c"]["ins"][n][1:3]
             yield "sym-enums-section/" + ("no-enum-statement" if kind == "unknown" else "malformed-enum-new-name" if b in BAD_ENUM_SYM else "malformed-enum-name-of-the-file")
